@@ -117,9 +117,7 @@ class Server(utils.EventEmitter):
                 channel.connection.handle,
                 channel.source_cid,
             )
-            channel.sink = lambda pdu: self.on_gatt_pdu(
-                channel, att.ATT_PDU.from_bytes(pdu)
-            )
+            channel.sink = lambda pdu: self.on_gatt_pdu_bytes(channel, pdu)
             # Forget the bearer's subscriptions and pending indication when it closes
             channel.once(channel.EVENT_CLOSE, lambda: self.on_disconnection(channel))
 
@@ -569,6 +567,23 @@ class Server(utils.EventEmitter):
         if pending_confirmation is not None and not pending_confirmation.done():
             # No confirmation will ever come: don't leave the sender waiting
             pending_confirmation.cancel()
+
+    def on_gatt_pdu_bytes(self, bearer: att.Bearer, pdu: bytes) -> None:
+        try:
+            att_pdu = att.ATT_PDU.from_bytes(pdu)
+        except Exception:
+            # The PDU can't be parsed (truncated?): a request must still be answered
+            if pdu and pdu[0] in att.ATT_REQUESTS:
+                self.send_response(
+                    bearer,
+                    att.ATT_Error_Response(
+                        request_opcode_in_error=pdu[0],
+                        attribute_handle_in_error=0x0000,
+                        error_code=att.ATT_INVALID_PDU_ERROR,
+                    ),
+                )
+            raise
+        self.on_gatt_pdu(bearer, att_pdu)
 
     def on_gatt_pdu(self, bearer: att.Bearer, att_pdu: att.ATT_PDU) -> None:
         logger.debug(f'GATT Request to server: {_bearer_id(bearer)} {att_pdu}')
